@@ -9,6 +9,9 @@
 #include "srun/packing.hpp"
 
 #include <opm/input/eclipse/Schedule/ScheduleState.hpp>
+#include <opm/input/eclipse/Deck/Deck.hpp>
+#include <opm/input/eclipse/Parser/Parser.hpp>
+#include <opm/common/utility/TimeService.hpp>
 
 #include <sstream>
 
@@ -79,9 +82,47 @@ struct C11 : Scenario {
     std::string id() const override { return "C11"; }
     Json describe() override { Json j = Json::object(); j["scenario"] = "S-RUN with migrate ops"; j["real_vs_stub"] = describe_real_vs_stub(); return j; }
 
-    Json generate(Rng& rng, const std::string& tier, std::uint64_t) override {
+    std::vector<std::string> shipped;
+    C11() { shipped = shipped_decks(0); }
+
+    // objects built from a shipped deck (keyword families far beyond the generator's): EclipseState, Schedule, SummaryConfig
+    RunResult execute_shipped(const Json& plan) {
+        RunResult r;
+        const std::string root = getenv("VERIF_RUNDIR") ? getenv("VERIF_RUNDIR") : "/dev/shm/verif.run";
+        fs::begin_run(root);
+        const std::string path = shipped.empty() ? std::string() : shipped[static_cast<size_t>(plan.geti("deck_pick")) % shipped.size()];
+        const std::string name = path.substr(path.rfind('/') + 1);
+        Hash64 sh, oh; sh.str("shipped"); sh.str(path);
+        Json sample = Json::object(); sample["kind"] = "shipped"; sample["deck"] = name;
+        Json none = Json::array(); Migrator mg(r, none, true);
+        fs::passthrough(true);
+        try {
+            Opm::Parser parser; auto python = std::make_shared<Opm::Python>();
+            std::unique_ptr<Opm::Deck> deck; std::unique_ptr<Opm::EclipseState> es; std::unique_ptr<Opm::Schedule> sched; std::unique_ptr<Opm::SummaryConfig> sc;
+            try { deck = std::make_unique<Opm::Deck>(parser.parseFile(path)); es = std::make_unique<Opm::EclipseState>(*deck); sched = std::make_unique<Opm::Schedule>(*deck, *es, python); }
+            catch (const std::exception&) { ++r.counters["shipped.unusable_deck"]; sched.reset(); }
+            if (sched) {
+                try { sc = std::make_unique<Opm::SummaryConfig>(*deck, *sched, es->fieldProps(), es->aquifer()); } catch (const std::exception&) { ++r.counters["shipped.no_summary_config"]; }
+                Opm::SummaryState st(Opm::TimeService::from_time_t(sched->getStartTime()), es->runspec().udqParams().undefinedValue());
+                std::vector<std::uint64_t> before; for (size_t k = 0; k < sched->size(); ++k) before.push_back(hash_dump(dump_state(*sched, k, st, DumpOpts{true, true, true, false, true, true, false})));
+                { std::unique_ptr<Opm::Schedule> rep; Trip t = trip_schedule(*sched, rep, python, nullptr); mg.check_trip("Schedule", t, name);
+                  if (!mg.failed && rep) for (size_t k = 0; k < rep->size(); ++k) if (hash_dump(dump_state(*rep, k, st, DumpOpts{true, true, true, false, true, true, false})) != before[k]) { mg.fail("C11.Schedule.query", name + ": the Schedule replica answers public queries differently at state " + std::to_string(k)); break; } }
+                if (!mg.failed) { std::unique_ptr<Opm::EclipseState> rep; mg.check_trip("EclipseState", trip_eclipse_state(*es, rep), name); }
+                if (!mg.failed && sc) { std::unique_ptr<Opm::SummaryConfig> rep; mg.check_trip("SummaryConfig", trip_summary_config(*sc, rep), name); }
+                r.nontrivial = true; ++r.counters["shipped.decks_round_tripped"]; r.counters["shipped.states"] += static_cast<long>(sched->size());
+                for (auto q : before) oh.u64(q);
+            }
+        } catch (const std::exception& e) { if (r.violations.empty()) r.fail("C11.shipped_threw." + msg_key(e.what()), name + ": " + e.what()); }
+        fs::passthrough(false);
+        r.shape = sh.h; r.sample = sample; { Hash64 fin; fin.u64(oh.h); fin.u64(mg.oh.h); r.hash = fin.h; }
+        fs::end_run(true);
+        return r;
+    }
+
+    Json generate(Rng& rng, const std::string& tier, std::uint64_t run) override {
         Json p = Json::object();
         p["scenario"] = "S-RUN";
+        if (!shipped.empty() && mix64(run ^ 0xC11) % 5 == 0) { p["kind"] = "shipped"; p["deck_pick"] = static_cast<long long>(rng.below(100000)); return p; }
         GenOpts o; o.max_steps = tier == "thorough" ? 8 : 6; o.max_actions = 2; o.max_udq = 2; o.restart_safe_conditions = false; o.esmry = true; o.late_edits = true; o.reparent_groups = true;
         p["model_seed"] = static_cast<long long>(rng.next() >> 8); p["gen"] = o.to_json(); p["physics_seed"] = static_cast<long long>(rng.next() >> 16);
         Json ms = Json::array();
@@ -100,6 +141,7 @@ struct C11 : Scenario {
 
     std::vector<Json> shrink(const Json& plan) override {
         std::vector<Json> out;
+        if (plan.gets("kind") == "shipped") return out;
         shrink_array(plan, "migrations", out, 1);
         for (size_t k = 0; k < plan.at("migrations").size(); ++k) { long mk = static_cast<long>(plan.at("migrations")[k].geti("mask")); for (int b = 0; b < 8; ++b) if ((mk & (1 << b)) && mk != (1 << b)) { Json p = plan; p["migrations"][k]["mask"] = static_cast<long long>(1 << b); out.push_back(p); } }
         Model m = generate_model(static_cast<std::uint64_t>(plan.geti("model_seed")), GenOpts::from_json(plan.at("gen")));
@@ -116,6 +158,7 @@ struct C11 : Scenario {
     }
 
     RunResult execute(const Json& plan) override {
+        if (plan.gets("kind") == "shipped") return execute_shipped(plan);
         RunResult r;
         const std::string root = getenv("VERIF_RUNDIR") ? getenv("VERIF_RUNDIR") : "/dev/shm/verif.run";
         fs::begin_run(root);
